@@ -805,6 +805,9 @@ func (s *verifConfSuite) runPairs(c *C, newHistory func(status map[string]string
 	if os.Getenv("VERIF_PAIRS") == "plain" {
 		variants = []string{"plain", "partial", "mutated"}
 	}
+	sample := verifConfEnvInt("VERIF_PAIRS_SAMPLE", 1)
+	offset := verifConfEnvInt("VERIF_SEED", 1)
+	cand := 0
 	for _, first := range tm {
 		for _, second := range tm {
 			if second.op == "pre-download" || second.op == "become-operational" {
@@ -851,6 +854,10 @@ func (s *verifConfSuite) runPairs(c *C, newHistory func(status map[string]string
 						default:
 							continue
 						}
+					}
+					cand++
+					if sample > 1 && cand%sample != offset%sample {
+						continue // quick tier: every sample-th candidate pair, rotating with the seed
 					}
 					newHistory(status)
 					n++
